@@ -31,3 +31,19 @@ Definition api_check_pair (prop : N) (a : src) (opsa : list hop) (b : src) (opsb
 (* classification of a panic observed on a tree: 100 = outside the domain, 53 = class K3, 1 = violation *)
 Definition api_panic_class (s : src) : N :=
   if negb (tree_wf s) then 100 else if k3_shape s then 53 else 1.
+
+From RS Require Import Sem.Writer.
+Definition api_writer (s : src) (cap : N) (short : bool) : text * text * bool :=
+  let '(w, ok) := to_writer_failing s cap short in (buffer s, w, ok).
+Definition api_check_writer (s : src) (cap : N) (short : bool) (buf written : text) (ok : bool) : N :=
+  chk_C07_writer s cap short buf written ok.
+
+From RS Require Import Checkers.ChkComp.
+(* C06: composite with its children observed standalone *)
+Definition api_comp (s : src) : list event * list event * list (list event) * list (list event) :=
+  let kids := match s with SConcat cs => cs | SReplace inner _ => [inner] | _ => [] end in
+  (fst (fst (stream [] s (mkOpts true false))), fst (fst (stream [] s (mkOpts false false))),
+   map (fun k => fst (fst (stream [] k (mkOpts true false)))) kids,
+   map (fun k => fst (fst (stream [] k (mkOpts false false)))) kids).
+Definition api_check_comp (s : src) (src_text : text) (c10 c00 : list event) (k10 k00 : list (list event)) : N :=
+  chk_C06 s src_text c10 c00 k10 k00.
